@@ -54,7 +54,7 @@ PROP = {
         {"name": "c08_open8", "src": "c08_mmap.cpp", "flags": ["-DVF_PART=1"]},
         {"name": "c08_stdish", "src": "c08_mmap.cpp", "flags": ["-DVF_PART=2"]},
     ],
-    "rule": ("native API: random histories (520 ops quick / 2200 thorough per run; add by key / by key position, InsertKey, AddKeyCrt, "
+    "rule": ("native API: random histories (700 ops quick / 4000 thorough per run, 3 / 12 runs per instantiation; add by key / by key position, InsertKey, AddKeyCrt, "
              "Remove(keyIter, index) through Find- and traversal-origin key iterators, Remove(predicate), RemoveValues, RemoveKey by key and "
              "by position, ResetKey, Clear, copy, move, swap, Find, pair and key traversal, dumps) over 8 instantiations = maxFastCount "
              "{1, 2, 7, 15} x key buckets {LimP4<4>/<2>, Open8} x key kinds {trivially copyable, throwing copy-assignment} x values "
